@@ -33,10 +33,21 @@ import (
 func init() {
 	register("C13", func(x *X) error {
 		x.UseNormalizedAST()
+		// Extraction problems inside a soft section concern change detectors only (Props/C13Pins.lean: the shape of
+		// sequential code whose behaviour the streams compare with the model): they are reported as `pinNotes`, not
+		// as a failure of the extractor.
+		var pinNotes []string
+		soft := func(f func()) {
+			n := len(x.errs)
+			f()
+			pinNotes = append(pinNotes, x.errs[n:]...)
+			x.errs = x.errs[:n]
+		}
 		c13Build(x)
-		c13Code(x)
+		soft(func() { c13Code(x) })
 		c13Serve(x)
-		c13Lookup(x)
+		c13Lookup(x, soft)
+		x.defStrList("pinNotes", pinNotes)
 		return nil
 	})
 }
@@ -721,7 +732,7 @@ func c13Serve(x *X) {
 
 // ---- Lookup ------------------------------------------------------------------------------------------------
 
-func c13Lookup(x *X) {
+func c13Lookup(x *X, soft func(func())) {
 	fd := x.funcDecl("route", "Table", "Lookup")
 	if fd == nil {
 		return
@@ -765,32 +776,35 @@ func c13Lookup(x *X) {
 	}
 	x.defStrList("lookupStoresNotPerRequest", c13uniq(shared))
 	x.defStrList("lookupBuildReceivers", c13uniq(w.recvOf["BuildRedirectURL"]))
-	// the self-redirect skip: the `if … { …; continue }` whose condition reads the redirect URL
-	found := false
-	for _, si := range w.skipIfs {
-		if !strings.Contains(strings.Join(si.conjuncts, " "), "RedirectURL") {
-			continue
+	// the self-redirect skip: the `if … { …; continue }` whose condition reads the redirect URL (change detector:
+	// the skip is sequential code whose effect c13.http / c13.sequence / c13.tag compare with the model)
+	soft(func() {
+		found := false
+		for _, si := range w.skipIfs {
+			if !strings.Contains(strings.Join(si.conjuncts, " "), "RedirectURL") {
+				continue
+			}
+			found = true
+			x.defStrList("lookupSelfRedirectComparisons", si.conjuncts)
+			x.defBool("lookupSelfRedirectContinues", si.continues)
+			x.defBool("lookupSkipClearsTarget", si.nilsRes)
+			var lits []string
+			tls := false
+			for _, h := range si.helpers {
+				lits = append(lits, c13stringLits(h.Body)...)
+				ast.Inspect(h.Body, func(n ast.Node) bool {
+					if b, ok := n.(*ast.BinaryExpr); ok && b.Op == token.NEQ && c13isSel(b.X, "TLS") && x.src(b.Y) == "nil" {
+						tls = true
+					}
+					return true
+				})
+			}
+			x.defStrList("requestSchemeLits", c13sortedUniq(lits))
+			x.defBool("requestSchemeReadsTLS", tls)
+			break
 		}
-		found = true
-		x.defStrList("lookupSelfRedirectComparisons", si.conjuncts)
-		x.defBool("lookupSelfRedirectContinues", si.continues)
-		x.defBool("lookupSkipClearsTarget", si.nilsRes)
-		var lits []string
-		tls := false
-		for _, h := range si.helpers {
-			lits = append(lits, c13stringLits(h.Body)...)
-			ast.Inspect(h.Body, func(n ast.Node) bool {
-				if b, ok := n.(*ast.BinaryExpr); ok && b.Op == token.NEQ && c13isSel(b.X, "TLS") && x.src(b.Y) == "nil" {
-					tls = true
-				}
-				return true
-			})
+		if !found {
+			x.fail("route.Lookup: no `if … continue` whose condition reads the redirect URL")
 		}
-		x.defStrList("requestSchemeLits", c13sortedUniq(lits))
-		x.defBool("requestSchemeReadsTLS", tls)
-		break
-	}
-	if !found {
-		x.fail("route.Lookup: no `if … continue` whose condition reads the redirect URL")
-	}
+	})
 }
